@@ -46,7 +46,7 @@ func playChordText(c *core.Ctx, key, text string) (*smfdec.File, string, map[str
 }
 
 func checkC17(c *core.Ctx) {
-	c.Rule("exhaustive: 28 supported keys x the 7 triads + 7 seventh chords printed by `info key describe`, each compared with the major / natural-minor harmonisation and then piped alone (and all 14 together) through `text conv syllable --key K | write --key K`; " +
+	c.Rule("exhaustive: 28 supported keys x the 7 triads + 7 seventh chords printed by `info key describe`, each compared with the major / natural-minor harmonisation and then piped alone (and all 14 together, twice in a row, with the exact pitch classes of every onset checked) through `text conv syllable --key K | write --key K`; " +
 		"sounded pitch classes must lie in the key's scale, the root must be the scale note; non-trivial = a printed chord that was parsed, matched against the harmonisation table and played; distinct by (key, position, kind)")
 	c.Assume("theory.Key.Scale", "conventional harmonisation tables from the property statement", "theory.ChordTable for reading symbols", "smfdec")
 	c.Exhaustive(true)
@@ -155,7 +155,8 @@ func checkC17(c *core.Ctx) {
 			}
 		}
 		if len(all) == 14 {
-			f, why, det := playChordText(c, ks, strings.Join(all, " "))
+			// twice in a row: every chord is resolved again after its siblings were
+			f, why, det := playChordText(c, ks, strings.Join(all, " ")+" "+strings.Join(all, " "))
 			if f == nil {
 				if why != "" {
 					c.Violate("key", i, "all:"+ks, fmt.Sprintf("%s: the 14 printed chords in one text are not playable: %s", ks, why), det)
@@ -171,8 +172,8 @@ func checkC17(c *core.Ctx) {
 					}
 				}
 			}
-			if n != 7*4+7*5 {
-				c.Violate("key", i, "all:"+ks+":count", fmt.Sprintf("%s: progression of all diatonic chords sounds %d notes, expected 63", ks, n), nil)
+			if n != 2*(7*4+7*5) {
+				c.Violate("key", i, "all:"+ks+":count", fmt.Sprintf("%s: progression of all diatonic chords sounds %d notes, expected 126", ks, n), nil)
 			}
 		}
 	})
